@@ -19,6 +19,38 @@ with the model.
 namespace Huginn.Http1.Spec
 open Huginn.Http1 Huginn.Gen
 
+/-! ### constants of the statement
+
+Frozen here from the property statement ("0..100 headers", "any of the supported methods") and the
+p0f sources it cites (fp_http.c: optional / value-skipped / common header lists). The code's own
+copies are regenerated into `Gen.HttpLists` on every run; `Lemmas/Http1Consts.lean` proves that they
+agree — an edit of a list, a method or a limit in the code breaks that proof and shows up as a failing
+case of the correspondence. -/
+
+def maxFields : Nat := 100
+/-- documented limit of one request line / header line (Http1Config::default) -/
+def maxLine : Nat := 8192
+
+def supportedMethods : List String :=
+  ["GET", "POST", "PUT", "DELETE", "HEAD", "OPTIONS", "PATCH", "TRACE", "CONNECT", "PROPFIND", "PROPPATCH",
+   "MKCOL", "COPY", "MOVE", "LOCK", "UNLOCK", "MKCALENDAR", "REPORT"]
+
+def p0fOptional (isReq : Bool) : List String :=
+  if isReq then
+    ["Cookie", "Referer", "Origin", "Range", "If-Modified-Since", "If-None-Match", "Via", "X-Forwarded-For",
+     "Authorization", "Proxy-Authorization", "Cache-Control"]
+  else
+    ["Set-Cookie", "Last-Modified", "ETag", "Content-Length", "Content-Disposition", "Cache-Control", "Expires",
+     "Pragma", "Location", "Refresh", "Content-Range", "Vary"]
+
+def p0fSkipValue (isReq : Bool) : List String :=
+  if isReq then ["Host", "User-Agent"] else ["Date", "Content-Type", "Server"]
+
+def p0fCommon (isReq : Bool) : List String :=
+  if isReq then
+    ["Host", "User-Agent", "Connection", "Accept", "Accept-Encoding", "Accept-Language", "Accept-Charset", "Keep-Alive"]
+  else ["Content-Type", "Connection", "Keep-Alive", "Accept-Ranges", "Date"]
+
 /-! ### RFC 7230 character classes -/
 
 def isAlpha (b : UInt8) : Bool := (decide (65 ≤ b) && decide (b ≤ 90)) || (decide (97 ≤ b) && decide (b ≤ 122))
@@ -186,11 +218,10 @@ instance (v) : Decidable (FieldValue v) := by unfold FieldValue; exact inferInst
 
 def FieldWF (f : Field) : Prop :=
   Token f.name ∧ Ows f.ows1 ∧ Ows f.ows2 ∧ FieldValue f.value ∧
-  (fieldLine f).length ≤ HttpLists.maxHeaderLength
+  (fieldLine f).length ≤ maxLine
 
 instance (f) : Decidable (FieldWF f) := by unfold FieldWF; exact inferInstance
 
-def supportedMethods : List String := HttpLists.parserMethods
 
 def isAlnum (b : UInt8) : Bool := isAlpha b || isDigitB b
 
@@ -243,8 +274,8 @@ def WFReq (h : ReqHead) : Prop :=
   h.method ∈ supportedMethods.map ascii ∧
   h.target ≠ [] ∧ h.target.all isVchar = true ∧
   (h.ver = .v10 ∨ h.ver = .v11) ∧
-  (requestLine h).length ≤ HttpLists.maxRequestLineLength ∧
-  h.fields.length ≤ HttpLists.maxHeaders ∧
+  (requestLine h).length ≤ maxLine ∧
+  h.fields.length ≤ maxFields ∧
   (∀ f ∈ h.fields, FieldWF f) ∧
   countFields h.fields "cookie" ≤ 1 ∧ countFields h.fields "referer" ≤ 1 ∧
   LangsWF h
@@ -256,7 +287,7 @@ def WFRes (h : ResHead) : Prop :=
   (h.ver = .v10 ∨ h.ver = .v11) ∧
   h.status.length = 3 ∧ h.status.all isDigitB = true ∧
   h.reason.all isFieldByte = true ∧ Utf8 h.reason ∧
-  h.fields.length ≤ HttpLists.maxHeaders ∧
+  h.fields.length ≤ maxFields ∧
   (∀ f ∈ h.fields, FieldWF f)
 
 instance (h) : Decidable (WFRes h) := by unfold WFRes; exact inferInstance
@@ -293,13 +324,13 @@ def cookiesOfField : Option Field → List Cookie
 
 /-- p0f: `?name` for optional headers, `name` alone for identity-bearing ones, `name=[value]` otherwise -/
 def sigEntry (isReq : Bool) (h : Hdr) : SigHdr :=
-  if ciMem h.name (optionalList isReq) then { optional := true, name := h.name, value := none }
-  else if ciMem h.name (skipValueList isReq) then { optional := false, name := h.name, value := none }
+  if ciMem h.name (p0fOptional isReq) then { optional := true, name := h.name, value := none }
+  else if ciMem h.name (p0fSkipValue isReq) then { optional := false, name := h.name, value := none }
   else { optional := false, name := h.name, value := h.value }
 
 /-- common headers of which no reported header carries the name -/
 def absentOf (isReq : Bool) (hs : List Hdr) : List SigHdr :=
-  ((commonList isReq).filter (fun c => !hs.any (fun h => ciEq h.name c))).map
+  ((p0fCommon isReq).filter (fun c => !hs.any (fun h => ciEq h.name c))).map
     (fun c => { optional := false, name := ascii c, value := none })
 
 /-! preferred language -/
@@ -399,8 +430,8 @@ def methodGate (h : ReqHead) : Prop :=
 instance (h) : Decidable (methodGate h) := by unfold methodGate; exact inferInstance
 
 def nameCaseOf (isReq : Bool) (n : Bytes) : Bool :=
-  (ciMem n (optionalList isReq) && !inList (optionalList isReq) n) ||
-  (!ciMem n (optionalList isReq) && ciMem n (skipValueList isReq) && !inList (skipValueList isReq) n)
+  (ciMem n (p0fOptional isReq) && !inList (p0fOptional isReq) n) ||
+  (!ciMem n (p0fOptional isReq) && ciMem n (p0fSkipValue isReq) && !inList (p0fSkipValue isReq) n)
 
 /-- A reported header is on the optional / value-elided list up to letter case only: the code
 compares exactly, so the `?` mark / the elision is lost. -/
